@@ -71,12 +71,14 @@ type site struct {
 	snapshotCopiesOwn bool
 
 	// frozen copies for the oracle (freeze)
-	fApps    []fakeredis.App
-	fLog     []fakeredis.PropCmd
-	fHarn    map[int64]string
-	fStats   map[string]int64
-	fHash    map[string]string // redis-gunyu-checkpoint-hash: source replication id → namespace
-	echoSeen atomic.Bool       // a link executed a business command of this site's own origin here
+	fApps  []fakeredis.App
+	fLog   []fakeredis.PropCmd
+	fHarn  map[int64]string
+	fStats map[string]int64
+	fHash  map[string]string // redis-gunyu-checkpoint-hash: source replication id → namespace
+
+	echoSeen atomic.Bool  // a link executed a business command of this site's own origin here
+	gcSeen   atomic.Int64 // stand-alone journal clean-up commands (DEL commit record / ZREM index) a link executed here
 }
 
 const harnessPrefix = "harness-"
@@ -107,6 +109,10 @@ func newSite(name, version, replid string, base int64, wrapSingle int) *site {
 			if m, err := checkpoint.DecodeBisyncMarker(string(a.Args[1])); err == nil && m.RecordType == "rdb" {
 				s.rdbTxn[a.Txn] = true
 			}
+		}
+		if a.Txn == 0 && len(a.Args) > 0 && (a.Cmd == "DEL" || a.Cmd == "UNLINK" || a.Cmd == "ZREM") &&
+			(checkpoint.IsBisyncCommitKey(string(a.Args[0])) || checkpoint.IsBisyncCommitIndexKey(string(a.Args[0]))) {
+			s.gcSeen.Add(1)
 		}
 		id := lastID(a.Args)
 		if id == "" {
